@@ -616,3 +616,182 @@ Section Sim.
       fin. apply vrel_spread_val; assumption.
   Qed.
 End Sim.
+
+(* ---------------------------------------------------------------- binding the parameters *)
+Section Bind.
+  Variable opok : binop -> bool.
+  Variable biok : builtin -> bool.
+  Variable nanfix : bool.
+  Notation vrel := (vrel opok biok nanfix).
+  Notation lrel := (lrel opok biok nanfix).
+
+  Definition relP (a a' : frame) (x : string) : Prop :=
+    exists v v', lookup_frame a x = Some v /\ lookup_frame a' x = Some v' /\ vrel v v'.
+
+  Lemma bind_params_rel ps : forall idx args args' acc acc', lrel args args' ->
+    match bind_params ps idx args acc, bind_params ps idx args' acc' with
+    | Some fr, Some fr' => forall x, (In x (map arg_name ps) \/ relP acc acc' x) -> relP fr fr' x
+    | None, None => True
+    | _, _ => False
+    end.
+  Proof.
+    induction ps as [|p ps IH]; intros idx args args' acc acc' Ha; cbn [bind_params].
+    - intros x [[]|H]. exact H.
+    - assert (Hgen : forall pv pv', vrel pv pv' ->
+        match bind_params ps (S idx) args ((arg_name p, pv) :: acc),
+              bind_params ps (S idx) args' ((arg_name p, pv') :: acc') with
+        | Some fr, Some fr' => forall x, (In x (map arg_name (p :: ps)) \/ relP acc acc' x) -> relP fr fr' x
+        | None, None => True
+        | _, _ => False
+        end).
+      { intros pv pv' Hpv. specialize (IH (S idx) args args' ((arg_name p, pv) :: acc) ((arg_name p, pv') :: acc') Ha).
+        destruct (bind_params ps (S idx) args _), (bind_params ps (S idx) args' _); try exact IH.
+        intros x Hx. apply IH. cbn [map In] in Hx.
+        destruct (String.eqb_spec x (arg_name p)) as [->|Hne].
+        - destruct (in_dec string_dec (arg_name p) (map arg_name ps)) as [Hi|Hi]; [left; exact Hi|].
+          right. exists pv, pv'. cbn [lookup_frame]. rewrite String.eqb_refl. auto.
+        - destruct Hx as [[E|Hin]|(v & v' & A & B & C)]; [congruence|left; exact Hin|].
+          right. exists v, v'. cbn [lookup_frame]. apply String.eqb_neq in Hne. rewrite Hne. auto. }
+      pose proof (lrel_nth_error opok biok nanfix args args' idx Ha) as Hn.
+      destruct p as [y|y|y]; cbn [arg_name] in *.
+      + destruct (nth_error args idx), (nth_error args' idx); try contradiction; [|exact I].
+        apply Hgen. exact Hn.
+      + apply Hgen. destruct (nth_error args idx), (nth_error args' idx); try contradiction; [exact Hn|constructor].
+      + apply Hgen. constructor. apply lrel_skipn. exact Ha.
+  Qed.
+End Bind.
+
+(* ---------------------------------------------------------------- the evaluator at depth d *)
+Section Top.
+  Variable opok : binop -> bool.
+  Variable biok : builtin -> bool.
+  Variable nanfix : bool.
+  Notation lit := (value_to_ast nanfix true).
+  Notation vrel := (vrel opok biok nanfix).
+  Notation lrel := (lrel opok biok nanfix).
+  Notation orel := (orel opok biok nanfix).
+  Notation hob := (hob opok biok).
+  Notation emit_ok := (emit_ok opok biok).
+  Notation cb_rel := (cb_rel opok biok nanfix).
+
+  Variable release : bool.
+  Variable binop_impl : callback -> binop -> value -> value -> store -> outcome value * store.
+  Variable builtin_impl : callback -> builtin -> list value -> store -> outcome value * store.
+  Notation AD := (AD release binop_impl builtin_impl).
+
+  (* what is assumed of the operator / built-in implementations: related callbacks, related
+     operands -> related outcomes (for the operators / built-ins that covered bodies may mention) *)
+  Definition impl_rel_respecting : Prop :=
+    (forall cb cb' op l l' r r' st st', opok op = true -> cb_rel cb cb' -> vrel l l' -> vrel r r' ->
+       orel (fst (binop_impl cb op l r st)) (fst (binop_impl cb' op l' r' st'))) /\
+    (forall cb cb' b args args' st st', biok b = true -> cb_rel cb cb' -> lrel args args' ->
+       orel (fst (builtin_impl cb b args st)) (fst (builtin_impl cb' b args' st'))).
+  Hypothesis Himpl : impl_rel_respecting.
+
+  Definition ADrel (d : nat) : Prop := forall fr fr', cb_rel (AD d fr) (AD d fr').
+
+  Lemma lookup_parent (sc : frame) (fr : frames) x :
+    lookup (match sc with [] => fr | _ => (FShared, sc) :: fr end) x =
+    match rec_get sc x with Some v => Some v | None => lookup fr x end.
+  Proof. destruct sc as [|kv sc]; [reflexivity|]. cbn [lookup]. now rewrite lookup_frame_rec_get. Qed.
+  Lemma in_fst_get (sc : frame) x : In x (map fst sc) -> exists v, rec_get sc x = Some v.
+  Proof.
+    intros H. destruct (rec_get sc x) eqn:E; [eauto|]. apply rec_get_None_notin in E. contradiction.
+  Qed.
+  Lemma acc_none (fr : frames) (st : store) id this (sc : frame) x :
+    x <> "inputs" -> rec_get sc x <> None ->
+    lookup_frame (match lookup fr "inputs" with Some i => [("inputs", i)] | None => [] end ++
+                  match lam_name st id with
+                  | Some n => match lookup_frame sc n with Some _ => [] | None => [(n, this)] end
+                  | None => []
+                  end) x = None.
+  Proof.
+    intros Hi Hs. apply String.eqb_neq in Hi.
+    destruct (lookup fr "inputs"); destruct (lam_name st id) as [n|]; cbn; rewrite ?Hi; try reflexivity;
+      (destruct (lookup_frame sc n) eqn:E; cbn; rewrite ?Hi; try reflexivity;
+       destruct (String.eqb_spec x n) as [->|]; [|reflexivity];
+       rewrite lookup_frame_rec_get in E; congruence).
+  Qed.
+
+  Lemma call_tail2 (X X' : result) r s (F : frames) r' s' (F' : frames) (R : outcome value -> outcome value -> Prop) :
+    X = (r, (s, F)) -> X' = (r', (s', F')) -> R r r' ->
+    R (fst (let '(r0, (st0, _)) := X in (r0, st0))) (fst (let '(r0, (st0, _)) := X' in (r0, st0))).
+  Proof. intros -> -> H. exact H. Qed.
+
+  Lemma AD_rel_two : forall d, ADrel d /\ ADrel (S d).
+  Proof.
+    destruct Himpl as (Hbin & Hbi).
+    assert (Hstep : forall d' (cbf : frames -> callback),
+               (forall fr fr', cb_rel (cbf fr) (cbf fr')) -> ADrel d' ->
+               (forall fr, AD (S d') fr = apply_at builtin_impl (Some (evalE release binop_impl (AD d'), cbf fr)) fr) ->
+               ADrel (S d')).
+    { intros d' cbf Hcb Hd Hdef fr fr' this this' f f' args args' st st' Hf Ha. rewrite !Hdef. unfold apply_at.
+      unfold check_arity, accepts. rewrite <- (vrel_fn_arity _ _ _ _ _ Hf), <- (lrel_length _ _ _ _ _ Ha).
+      destruct (negb match fn_arity f with Some a => can_accept a (Datatypes.length args) | None => false end);
+        [exact I|].
+      destruct Hf; cbn [call_passed fst]; try exact I.
+      - (* built-in *) apply Hbi; auto.
+      - (* closure *)
+        set (acc := (match lookup fr "inputs" with Some i => [("inputs", i)] | None => [] end ++
+                     match lam_name st id with
+                     | Some n => match lookup_frame sc n with Some _ => [] | None => [(n, this)] end
+                     | None => [] end)).
+        set (acc' := (match lookup fr' "inputs" with Some i => [("inputs", i)] | None => [] end ++
+                      match lam_name st' id' with
+                      | Some n => match lookup_frame sc' n with Some _ => [] | None => [(n, this')] end
+                      | None => [] end)).
+        pose proof (bind_params_rel opok biok nanfix ps 0 args args' acc acc' Ha) as HB.
+        destruct (bind_params ps 0 args acc) as [local|] eqn:EB;
+          destruct (bind_params ps 0 args' acc') as [local'|] eqn:EB'; try contradiction; [|exact I].
+        set (F1 := (FOwned, local) :: match sc with [] => fr | _ => (FShared, sc) :: fr end).
+        set (F2 := (FOwned, local') :: match sc' with [] => fr' | _ => (FShared, sc') :: fr' end).
+        set (bound := map arg_name ps ++ map fst sc).
+        assert (HInv : Inv opok biok nanfix bound F1 F2 m).
+        { repeat split; [assumption|assumption|].
+          intros x Hx. unfold bound in Hx. rewrite mem_app in Hx.
+          destruct (in_dec string_dec x (map arg_name ps)) as [Hin|Hnp].
+          - destruct (HB x (or_introl Hin)) as (v & v' & A & B & C).
+            exists v. unfold F1, F2. cbn [lookup]. rewrite A, B. split; [reflexivity|].
+            rewrite (H2 x Hin). eauto.
+          - assert (Hsc : In x (map fst sc)).
+            { apply orb_prop in Hx as [Hx|Hx]; apply mem_In in Hx; [contradiction|exact Hx]. }
+            destruct (in_fst_get sc x Hsc) as (v & Ev).
+            assert (Hxi : x <> "inputs") by (intros ->; congruence).
+            exists v. unfold F1. cbn [lookup].
+            rewrite (bind_params_keeps ps 0 args acc local x EB Hnp). unfold acc.
+            rewrite acc_none by (auto; congruence). rewrite lookup_parent, Ev. split; [reflexivity|].
+            destruct (rec_get m x) as [a|] eqn:Em.
+            + exact (H4 x v a Ev Em).
+            + destruct (H6 x v Ev Em Hnp) as (v' & Ev' & V). exists v'. split; [|exact V].
+              unfold F2. cbn [lookup]. rewrite (bind_params_keeps ps 0 args' acc' local' x EB' Hnp). unfold acc'.
+              rewrite acc_none by (auto; congruence). rewrite lookup_parent, Ev'. reflexivity. }
+        destruct (proj1 (sim_all opok biok nanfix release binop_impl (AD d') Hbin Hd b) H F1 F2 m bound HInv H0 st st')
+          as (r & s1 & r' & s1' & E1 & E2 & Hr).
+        exact (call_tail2 _ _ _ _ _ _ _ _ orel E1 E2 Hr). }
+    induction d as [|d [IH0 IH1]].
+    - split.
+      + intros fr fr' this this' f f' args args' st st' Hf Ha. cbn. unfold apply_at.
+        unfold check_arity, accepts. rewrite <- (vrel_fn_arity _ _ _ _ _ Hf), <- (lrel_length _ _ _ _ _ Ha).
+        destruct (negb _); exact I.
+      + apply (Hstep O (fun _ => fun _ f a s => call_too_deep f a s)).
+        * intros fr fr' this this' f f' args args' st st' Hf Ha. unfold call_too_deep.
+          unfold check_arity, accepts. rewrite <- (vrel_fn_arity _ _ _ _ _ Hf), <- (lrel_length _ _ _ _ _ Ha).
+          destruct (match fn_arity f with Some a => can_accept a (Datatypes.length args) | None => false end); exact I.
+        * intros fr fr' this this' f f' args args' st st' Hf Ha. cbn. unfold apply_at.
+          unfold check_arity, accepts. rewrite <- (vrel_fn_arity _ _ _ _ _ Hf), <- (lrel_length _ _ _ _ _ Ha).
+          destruct (negb _); exact I.
+        * intros fr. reflexivity.
+    - split; [exact IH1|].
+      apply (Hstep (S d) (fun fr => AD d fr)).
+      + exact IH0.
+      + exact IH1.
+      + intros fr. reflexivity.
+  Qed.
+
+  (* THE SIMULATION: related functions applied to related arguments, at every depth, from any two
+     scope chains, any two stores, any self values: related outcomes *)
+  Theorem ho_simulation : forall d fr fr' this this' f f' args args' st st',
+    vrel f f' -> lrel args args' ->
+    orel (fst (AD d fr this f args st)) (fst (AD d fr' this' f' args' st')).
+  Proof. intros d fr fr'. exact (proj1 (AD_rel_two d) fr fr'). Qed.
+End Top.
